@@ -3,6 +3,8 @@
 ORACLE_REFSEM = "the harness's reference interpreter (refsem.rs, ext.rs) is my reading of the Cedar language reference; it shares no code with /repo"
 CONCRETE = "the concrete evaluator/authorizer of /repo is the oracle here; it is itself monitored against an independent model by C01/C02/C07"
 
+NOT_CLAIMED = {}
+
 PROPS = {
     "C02": {
         "rule": "case = (random world, random 'wild' expression of depth<=5 rendered with random parenthesisation/escapes); evaluated by 4 routes (Evaluator::interpret, eval_expression, when-clause via is_authorized, harness-written JSON policy) against the reference interpreter; non-trivial = expression has >=2 operator nodes and at least one route produced an answer; distinct = hash of (expression, world)",
